@@ -605,7 +605,18 @@ func c08PersistPromises(p *Prog, r *c08Roles) (out []c08Promise, lost []string) 
 		pr.Bad = c08NilReturnFrom(f.Blocks[0], 0, ct)
 		out = append(out, pr)
 	}
+	push := p.Fn(c08Pkg, "Store.Push")
+	notManifest := func(f *ssa.Function) func(ct *cut) {
+		return func(ct *cut) {
+			_, nm, _ := CallTests(f, "~/internal/descriptor.IsManifest", nil)
+			ct.Edges(nm...)
+		}
+	}
 	for f := range helpers {
+		if f == push { // the tag helper inlined into Push: only manifests are tagged
+			eval(f, "manifest-success-implies-index-saved", notManifest(f))
+			continue
+		}
 		eval(f, "success-implies-index-saved", nil)
 	}
 	viaHelpers := func(f *ssa.Function) func(ct *cut) {
@@ -621,13 +632,12 @@ func c08PersistPromises(p *Prog, r *c08Roles) (out []c08Promise, lost []string) 
 	} else if !helpers[f] {
 		eval(f, "success-implies-index-saved", viaHelpers(f))
 	}
-	if f := p.Fn(c08Pkg, "Store.Push"); f == nil {
+	if f := push; f == nil {
 		lost = append(lost, "~/content/oci.Store.Push")
 	} else if !helpers[f] {
 		eval(f, "manifest-success-implies-index-saved", func(ct *cut) {
 			c08SuccessCut(f, helpers, ct)
-			_, notManifest, _ := CallTests(f, "~/internal/descriptor.IsManifest", nil)
-			ct.Edges(notManifest...)
+			notManifest(f)(ct)
 		})
 	}
 	return
